@@ -3,7 +3,7 @@
 import json, os
 ROOT = os.path.dirname(os.path.abspath(__file__))
 TEXT = {
- "C01": ("Theorems (any key type): acceptance implies a signature valid under the record's own key over the payload rebuilt from exactly the reported fields, payload injectivity, rejection of inputs whose signature does not verify; executable verifiers reject wrong lengths, out-of-range r/s, high-S twins and non-canonical Ed25519 s by explicit guards. Tie: dec family (valid records by an independent signer, re-signed mutants, every class of tamper) decoded under all key types; the model's own ECDSA/EdDSA/Keccak decides validity.",
+ "C01": ("Theorems (any key type): acceptance implies a signature valid under the record's own key over the payload rebuilt from exactly the reported fields, payload injectivity, rejection of inputs whose signature does not verify; executable verifiers reject wrong lengths, out-of-range r/s, high-S twins and non-canonical Ed25519 s by explicit guards. Tie: dec, stream and hist families (valid records by an independent signer incl. chosen-nonce signatures, re-signed mutants, every class of tamper incl. repeated keys, dangling items and signatures over a suffix) decoded under all key types, by 8 threads at once, through non-JSON deserialisers; the model's own ECDSA/EdDSA/Keccak decides validity.",
          "Unforgeability is outside every theorem; curve/hash mathematics is not proved, only re-implemented and compared."),
  "C02": ("decode_iff_wellformed: for every byte string and key type the model decoder accepts iff the declarative WellFormed predicate holds (canonical framing as equality with the canonical encoding). Tie: dec family with generator-side expectations that are independent of the model.",
          "65-byte SEC1 keys and inner bytes of unknown-key lists are excluded from the verdict as the property says."),
@@ -15,7 +15,7 @@ TEXT = {
          "Scheme laws (pub_inj, key_not_reserved, pub_local) are proved for the toy scheme and for the byte-level models of the four real key types; that the real crates compute those encodings is validated by the tie."),
  "C06": ("step_error_unchanged: for every record, operation and oracle answer (including signer failure and signatures of any length) an error leaves the record equal to the one before. Tie: hist/size families with fault-injecting keys and the toy scheme; before/after comparison of all fields and the encoding on the implementation.",
          "The model mirrors the clone-and-commit structure of the code; the tie is what detects in-place mutation."),
- "C07": ("step_seq_succ, step_setSeq_exact, step_no_wrap (never Ok at 2^64-1, error kind characterised), u64 round trip. Tie: hist/size/acc from every boundary sequence number.", ""),
+ "C07": ("step_seq_succ, step_setSeq_exact, step_no_wrap (never Ok at 2^64-1, error kind characterised), u64 round trip. Tie: hist/size/acc/dec from every boundary sequence number, with quiet steps (nothing reads the record's bytes between two updates), with and without debug assertions; the number through bytes and text after every step.", ""),
  "C08": ("Content equations for every mutator and the builder against the sorted association-list model, untouched-keys theorem, return values, error causes; C08_admissible_sound: the set of error kinds the runtime monitor admits contains the error the model step returns, for every record, operation and signer outcome. Tie: the model IS the plain sorted map; pairs and return values are compared after every step, error kinds against the admissible set.",
          "Error kinds are compared against the set of causes that actually hold for the call (so a harmless reordering of independent checks raises no alarm); a kind outside that set is reported."),
  "C09": ("size = encoding length (rfl), size <= 300 after build/update/decode, refusal_sound / refusal_complete / refusal_exact (an update that reaches the signer is refused iff the signed result exceeds 300 bytes, any signature length), precedence at seq 2^64-1, builder: refuses everything over 300 and only within the proven slack (build_exceeds_iff). Tie: size family sweeping result sizes across the limit with growing sequence numbers for every mutator and key type, toy scheme for variable signature lengths.", ""),
@@ -24,10 +24,10 @@ TEXT = {
          "Proof for dispatch/precedence/isolation; differential for back-end agreement."),
  "C12": ("b64 round trip and canonicity, text form, parseText_iff (accepted strings are exactly the text and the text without prefix), foreign characters and trailing bytes rejected; JSON document form and serde_json string layer (parse_json_exact, json_quote_roundtrip, escaped spellings). Tie: txt family (padding, alphabets, whitespace, prefixes, trailing bits, appended bytes) through from_str and serde_json.", ""),
  "C13": ("decode_append / prefix locality in both directions with the same error, advance = item length, decodeMany and decodeList characterised exactly (decode_many_iff, decode_list_spec, decode_many_append). Tie: stream family (suffixes 0..1000 bytes, back-to-back records, Vec<Enr>).", ""),
- "C14": ("Accessor characterisations (port/ip/id/client) against the raw content, u16 round trip for all ports by proof, setter and builder read-back, socket combination, id / client-info strings through the UTF-8 (lossy) model. Tie: acc family (ports through builder/setter/socket setter/decode, 64 presence combinations, arbitrary raw values).", ""),
+ "C14": ("Accessor characterisations (port/ip/id/client) against the raw content, u16 round trip for all ports by proof, setter and builder read-back, socket combination, id / client-info strings through the UTF-8 (lossy) model. Tie: acc family (ports through builder/setter/socket setter/decode, 64 presence combinations, arbitrary raw values, special-purpose addresses, strings and keys of every length class and with byte-order marks / control characters), typed builder methods read back, accessors after every re-decode.", ""),
  "C15": ("Equality is structural (eqv_iff_eq), an equivalence, implies equal hash feed, identical pairs and identical encoding unconditionally (since fix 60cb6b7 equality compares the pairs; the legacy definition needed the cryptographic hypotheses SigBinds/HashInj, kept as documentation with the counterexample); clone and re-decode; compare_content_iff by payload injectivity. Tie: eq family (clones, re-decodings, re-signings, one-field edits, re-keyings, proper-prefix contents, key/value boundary shifts, and two valid records with the same signature but different pairs under a small-order ed25519 key).",
          ""),
- "C16": ("parse_iff, ser/deser/debug/display forms and round trips for every 32-byte value and every string. Tie: nid family (all slice lengths 0..64, strings of length 0..70, prefixes, case, non-hex).", ""),
+ "C16": ("parse_iff, ser/deser/debug/display forms and round trips for every 32-byte value and every string. Tie: nid family (all slice lengths 0..130 and public keys / hex text as slices, strings up to 300 digits and 64 KiB, prefixes, case, non-hex, non-ASCII characters that case-map to hex digits, every serde_json route and an escaped spelling).", ""),
  "C17": ("import_iff_valid, export_import, buffer_zeroed / kept on error, public key = independent derivation. Tie: ck family (0, 1, n-1, n, n+1, 2^256-1, random; wrong lengths for ed25519), public keys derived by the Lean curve code.",
          "That d*G is never the identity for 0<d<n is not proved (group theory); validated on every case."),
 }
